@@ -23,6 +23,9 @@ CLAIMED = {
    note="Trusted: go/ssa, checker/lenprove.go (controls on every run). fromEntry's recombination is listed, not armed. Integer overflow ignored.", ref="§4 C10"),
 }
 # -- add further claimed properties as CLAIMED["Cxx"] = dict(...) below this line --
+CLAIMED["C19"] = dict(level="proof", technique="static analysis: abstract interpretation of the comparators' SSA over the finite domain of order-relation patterns (27 sign triples, overflow fork on time subtraction), followed by exhaustive enumeration of the order axioms (27 pairs, 2197 triples)",
+   text="Full decision of the stated order laws from the current source: because the comparators touch entries only through three three-way comparisons, their behaviour on all inputs is a finite table computed by an abstract interpreter on every run; irreflexivity/totality, antisymmetry, transitivity (all 2197 consistent triple patterns), causality, default==hash-tiebreak off ties, NoZeroes, first==-last, clock comparison laws and Sort's less function are then checked exhaustively. Every obligation must be discharged; an instruction outside the interpreter's vocabulary fails the check.",
+   note="Assumes *entry.Entry/*entry.LamportClock are the only implementers (asserted on every run), distinct entries have distinct hashes, sort.SliceStable's contract, and that a non-wrapped time distance is never MinInt (|time| < 2^62) so that FirstWriteWins' negation is exact. Trusted base: checker/cmp.go, go/ssa.", ref="§4 C19")
 CLAIMED["C06"] = dict(technique="static analysis: dominance/must-pass-through dataflow over go/cfg (validate-then-apply, denied append), SSA pipeline comparison of the sign and verify chains, definite-assignment nil-flow in Verify",
    text="Decides structural necessary conditions of verified, authorised, all-or-nothing merging on every path: state changes dominated by the nil validation error after Wait, infallible apply phase, validated collection == applied collection with CanAppend and Verify called and recorded on every accepting path, denied append stores nothing, sign and verify pipelines agree, Verify is total for every codec, difference admits only equal-log-id entries. It does not decide the signature scheme or policy semantics.",
    note="Trusted: go/cfg, go/ssa, rule tables in checker/c06.go. User access controllers are opaque.", ref="§4 C06")
